@@ -350,10 +350,50 @@ func c06Multiline(c *mon.Child) {
 	}
 }
 
+// c06Options: whatever options Build accepted, parsing must not panic.
+func c06Options(c *mon.Child) {
+	type optCase struct {
+		desc string
+		opts []participle.Option
+	}
+	cases := []optCase{
+		{"Elide of a token type the lexer does not have", []participle.Option{participle.Elide("Nope")}},
+		{"Elide of an existing and a missing type", []participle.Option{participle.Elide("Comment", "Nope")}},
+		{"CaseInsensitive of a missing type", []participle.Option{participle.CaseInsensitive("Nope")}},
+		{"UseLookahead(0)", []participle.Option{participle.UseLookahead(0)}},
+		{"Elide given twice", []participle.Option{participle.Elide("Comment"), participle.Elide("Comment")}},
+		{"Unquote and Upper on the same type", []participle.Option{participle.Unquote("String"), participle.Upper("String")}},
+	}
+	for i, oc := range cases {
+		key := fmt.Sprintf("opt%d", i)
+		if !c.Want(key) {
+			continue
+		}
+		c.Begin(key, "option case: "+oc.desc)
+		var p *participle.Parser[c06FlatG]
+		var err error
+		if pn, pv, st := mon.Guard(func() { p, err = participle.Build[c06FlatG](oc.opts...) }); pn {
+			c.Violation("", key, "Build panicked with options ("+oc.desc+"): "+pv+" at "+st, nil)
+			c.End(key)
+			continue
+		}
+		if err == nil && p != nil {
+			for _, in := range []string{"a b", "", "a // c\n b", "\"s\" a"} {
+				c06One(c, key, gram.WrapParser(p), "flat list grammar built with "+oc.desc, in, "o.txt", false, func() interface{} { return map[string]interface{}{"options": oc.desc, "input": in} })
+			}
+		} else {
+			c.Feature("option_misuse_rejected_by_Build")
+		}
+		c.Nontrivial("opt:" + oc.desc)
+		c.End(key)
+	}
+}
+
 func c06Child(c *mon.Child) {
 	if c.Batch == 0 {
 		c06FlatLexing(c)
 		c06Multiline(c)
+		c06Options(c)
 	}
 	// Part A: generated grammars x arbitrary bytes / soup / near-derivations
 	nInputs := c.N(60, 300)
